@@ -140,6 +140,35 @@ pub fn run(kind: &str, args: &[String]) -> i32 {
                 rep.check(idx, "write/canonical-length", Ok(json!(o.canonical.len())), &case["total"]);
                 rep.check(idx, "write/scripted-sink", Ok(got), &case["want"]);
             }
+            "cachefile" => {
+                // cache files written by the SPECIFICATION (CacheWriter.tla), read by the real reader
+                use crate::handles::{parse_query, Aligned, Handle};
+                if let Some(qs) = case.get("queries") {
+                    queries = qs.as_array().unwrap().clone();
+                    rep.cases -= 1;
+                    continue;
+                }
+                let qs: Vec<_> = queries.iter().map(parse_query).collect();
+                for (fi, file) in case["files"].as_array().unwrap().iter().enumerate() {
+                    let bytes = enc::from_bytes(file);
+                    let buf = Aligned::new(&bytes);
+                    let parsed = guarded(std::panic::AssertUnwindSafe(|| proguard::ProguardCache::parse(buf.bytes()).map_err(|e| e.to_string())));
+                    match parsed {
+                        Ok(Ok(cache)) => {
+                            let tested = guarded(std::panic::AssertUnwindSafe(|| cache.test())).is_ok();
+                            rep.check(idx, &format!("file{fi}/self-test"), Ok(json!(tested)), &json!(true));
+                            let h = Handle::Cache(cache);
+                            for (k, q) in qs.iter().enumerate() {
+                                let hr = std::panic::AssertUnwindSafe(&h);
+                                let a = guarded(move || hr.answer(q));
+                                rep.check(idx, &format!("file{fi}/q{k}"), a, &case["wants"][k]);
+                            }
+                        }
+                        Ok(Err(e)) => rep.check(idx, &format!("file{fi}/parse"), Err(e), &json!("accepted")),
+                        Err(p) => rep.check(idx, &format!("file{fi}/parse"), Err(p), &json!("accepted")),
+                    }
+                }
+            }
             "retrace" => retrace(&mut rep, idx, &case, &mut queries, args.get(1).map(|s| s.as_str()).unwrap_or("all")),
             "meta" => {
                 let src = enc::from_bytes(&case["src"]);
